@@ -29,8 +29,41 @@ CH = "self._child_nodes"
 
 def others_order_preserved(L):
     """relative order of the elements other than `node` is unchanged"""
-    return ("forall_ref('Node', lambda a: forall_ref('Node', lambda b: implies(a != node and b != node and old(isin(a, {L})) and old(isin(b, {L})) "
-            "and old(a.g_pos) < old(b.g_pos), a.g_pos < b.g_pos)))").format(L=L)
+    return "order_kept(%s, node)" % L
+
+
+def reparent_contract(target, X, P, raises=None):
+    """contract of `X.parent_node = P` (Node._set_parent_node / Edge._set_tail_node): X leaves the child list of
+    its old parent (if listed there) and is appended to P's child list (if not listed there)"""
+    OLDP = "%s._parent_node" % X
+    OL = "%s._parent_node._child_nodes" % X     # owner evaluated in the pre-state by the list relations
+    NL = "%s._child_nodes" % P
+    pname = P
+    return Contract(
+        target, types={pname: "opt ref:Node"},
+        # the two lists involved satisfy listinv and (when they are different lists) share no element:
+        # no node sits in two child lists -- part of the arborescence invariant the callers maintain
+        requires=("implies(not isnone({X}) and not isnone({OLDP}), listinv({OL})) and implies(not isnone({P}), listinv({NL})) "
+                  "and implies(not isnone({X}) and not isnone({OLDP}) and not isnone({P}) and {OLDP} != {P}, "
+                  "forall_ref('Node', lambda y: not (isin(y, {OL}) and isin(y, {NL}))))").format(X=X, OLDP=OLDP, OL=OL, P=P, NL=NL),
+        raises=raises or {},
+        modifies=["%s._parent_node" % X,
+                  "%s if not isnone(%s)" % (OL, OLDP),
+                  "%s if not isnone(%s)" % (NL, P),
+                  "Node.g_pos[*] if not isnone(%s) or not isnone(%s)" % (OLDP, P)],
+        ensures={
+            "parent-set": "{X}._parent_node == {P}".format(X=X, P=P),
+            "left-old-parent": ("implies(not isnone(old({OLDP})) and old({OLDP}) != {P}, "
+                                "ite(old(isin({X}, {OL})), list_minus({OL}, {X}), list_same({OL})) and listinv(old({OLDP})._child_nodes) "
+                                "and not isin({X}, old({OLDP})._child_nodes))").format(X=X, OLDP=OLDP, OL=OL, P=P),
+            "joined-new-parent": ("implies(not isnone({P}) and old({OLDP}) != {P}, "
+                                  "ite(old(isin({X}, {NL})), list_same({NL}), list_plus({NL}, {X})) and listinv({NL}) and isin({X}, {NL}))").format(X=X, OLDP=OLDP, NL=NL, P=P),
+            "same-parent": ("implies(not isnone({P}) and old({OLDP}) == {P}, listinv({NL}) and isin({X}, {NL}) "
+                            "and length({NL}) == old(length({NL})) + ite(old(isin({X}, {NL})), 0, 1))").format(X=X, OLDP=OLDP, NL=NL, P=P),
+            "other-lists-untouched": "lists_frame('Node', {OL}, {NL})".format(OL=OL, NL=NL),
+            "ghost-frame": "pos_frame({OL}, {NL})".format(OL=OL, NL=NL),
+        },
+    )
 
 
 CONTRACTS = [
@@ -63,46 +96,28 @@ CONTRACTS = [
             "others-keep-their-order": others_order_preserved(CH),
             # where the node ends up: at the requested index (clamped to the list, as list.insert does),
             # counted in the list from which an earlier occurrence of the node has been removed
-            "position": "implies(0 <= index and index <= length({L}) - 1, node.g_pos == index)".format(L=CH),
-            "returns": "result == node or (isnone(result) and old(isin(node, {L})) and old(node.g_pos) == index)".format(L=CH),
+            "position": "implies(0 <= index and index <= length({L}) - 1, at({L}, index) == node)".format(L=CH),
+            "returns": "result == node or (isnone(result) and old(isin(node, {L})) and 0 <= index and index < old(length({L})) and old(at({L}, index)) == node)".format(L=CH),
         },
     ),
     Contract(
         ND + ":Node.remove_child", types={"node": "ref:Node", "suppress_unifurcations": "bool", "return": "ref:Node"},
         # contract of the plain removal; the suppress_unifurcations=True branches are composite operations (T2)
         requires="not suppress_unifurcations and listinv({L}) and node._edge != None and node._edge._head_node == node".format(L=CH),
-        modifies=["node._parent_node", "self._child_nodes"],
+        modifies=["node._parent_node", "self._child_nodes", "Node.g_pos[*]"],
         raises={"ValueError": "not isin(node, %s)" % CH},
         ensures={
             "parent-cleared": "isnone(node._parent_node)",
             "returns-node": "result == node",
             "list-invariant": "listinv(%s)" % CH,
             "removed": "not isin(node, %s)" % CH,
-            "length": "length({L}) == old(length({L})) - 1".format(L=CH),
-            "others-kept": "forall_ref('Node', lambda m: implies(old(isin(m, {L})) and m != node, isin(m, {L})))".format(L=CH),
-            "no-new-member": "forall_ref('Node', lambda m: implies(isin(m, {L}), old(isin(m, {L}))))".format(L=CH),
-            "others-keep-their-order": others_order_preserved(CH),
+            "exactly-node-removed": "list_minus(%s, node)" % CH,
+            "other-lists-untouched": "lists_frame('Node', %s)" % CH,
+            "ghost-frame": "pos_frame(%s)" % CH,
         },
     ),
-    Contract(
-        ND + ":Node._set_parent_node", types={"parent": "opt ref:Node"},
-        requires="implies(not isnone(self._parent_node), listinv(self._parent_node._child_nodes)) and implies(not isnone(parent), listinv(parent._child_nodes))",
-        modifies=["self._parent_node", "Node._child_nodes[*]"],
-        ensures={
-            "parent-set": "self._parent_node == parent",
-            "listed-by-new-parent": "implies(not isnone(parent), isin(self, parent._child_nodes) and listinv(parent._child_nodes))",
-            "unlisted-from-old-parent": "implies(not isnone(old(self._parent_node)) and old(self._parent_node) != parent, "
-                                        "not isin(self, old(self._parent_node)._child_nodes))",
-        },
-    ),
-    Contract(
-        ED + ":Edge._set_tail_node", types={"node": "opt ref:Node"},
-        requires="implies(not isnone(self._head_node) and not isnone(self._head_node._parent_node), listinv(self._head_node._parent_node._child_nodes)) "
-                 "and implies(not isnone(node), listinv(node._child_nodes))",
-        modifies=["Node._parent_node[*]", "Node._child_nodes[*]"],
-        raises={"ValueError": "isnone(self._head_node)"},
-        ensures={"head-reparented": "self._head_node._parent_node == node"},
-    ),
+    reparent_contract(ND + ":Node._set_parent_node", "self", "parent"),
+    reparent_contract(ED + ":Edge._set_tail_node", "self._head_node", "node", raises={"ValueError": "isnone(self._head_node)"}),
     Contract(
         ED + ":Edge._get_tail_node", types={"return": "opt ref:Node"}, requires="True",
         ensures={"tail-is-parent-of-head": "ite(isnone(self._head_node), isnone(result), result == self._head_node._parent_node)"},
@@ -128,4 +143,81 @@ def t1(ctx):
     ctx.assume("C03/T1 theory B: child lists modelled exactly (length + element array) with the ghost position map g_pos and listinv; "
                "Node/Edge equality is identity; acyclicity, reachability and the composite operations are bounded (T2)")
     for c in CONTRACTS:
-        verify_contract(ctx, SUITE, c, sentinels=False)
+        verify_contract(ctx, SUITE, c, sentinels=False, replay=dreplay.replay_by_search(states))
+    dreplay.validate_contracts_natively(ctx, CONTRACTS, states, "primitive-contracts@forests<=4",
+                                        "every T1 contract as a run-time monitor on the real method, for every ordered forest shape with <= 4 leaves "
+                                        "plus one detached node x every receiver/argument choice; non-trivial = inside the contract's requires")
+
+
+# ----------------------------------------------------------------------------- native replay: reachable heaps of real nodes
+def states(c):
+    """small forests of real Node objects x every choice of receiver / arguments"""
+    import itertools
+    from dendropy.datamodel.treemodel import Node, Edge
+    from bounded.common import shapes_upto
+    meth = c.name.split(".")[-1]
+    cls = c.name.split(".")[0]
+
+    def forest(shape):
+        nodes = []
+
+        def mk(s):
+            n = Node(label="n%d" % len(nodes))
+            nodes.append(n)
+            for ch in s:
+                n.add_child(mk(ch))
+            return n
+
+        mk(shape)
+        extra = Node(label="x")
+        nodes.append(extra)
+        return nodes
+
+    shapes = [s for s in shapes_upto(4)]
+    for shape in shapes:
+        n_nodes = len(forest(shape))
+        for i in range(n_nodes):
+            if cls == "Node" and meth in ("add_child", "remove_child", "insert_child"):
+                for j in range(n_nodes):
+                    idxs = (0, 1, 2, -1, 5) if meth == "insert_child" else (None,)
+                    for idx in idxs:
+                        nodes = forest(shape)
+                        kw = {"self": nodes[i], "node": nodes[j]}
+                        if meth == "insert_child":
+                            kw["index"] = idx
+                        if meth == "remove_child":
+                            kw["suppress_unifurcations"] = False
+                        yield kw, {"Node": nodes}, "%s: n%d.%s(n%d%s) on %s" % (c.name, i, meth, j, "" if idx is None else ", %d" % idx, shape)
+            elif cls == "Node" and meth == "_set_parent_node":
+                for j in list(range(n_nodes)) + [None]:
+                    nodes = forest(shape)
+                    if j is not None and (j == i):
+                        continue
+                    yield {"self": nodes[i], "parent": None if j is None else nodes[j]}, {"Node": nodes}, "%s: n%d.parent_node = %s on %s" % (c.name, i, "None" if j is None else "n%d" % j, shape)
+            elif cls == "Edge" and meth == "_set_tail_node":
+                for j in list(range(n_nodes)) + [None]:
+                    nodes = forest(shape)
+                    if j is not None and j == i:
+                        continue
+                    yield {"self": nodes[i].edge, "node": None if j is None else nodes[j]}, {"Node": nodes}, "%s: n%d.edge.tail_node = %s on %s" % (c.name, i, "None" if j is None else "n%d" % j, shape)
+            elif cls == "Edge" and meth == "_get_tail_node":
+                nodes = forest(shape)
+                yield {"self": nodes[i].edge}, {"Node": nodes}, "%s: n%d.edge.tail_node on %s" % (c.name, i, shape)
+            elif cls == "Node" and meth in ("clear_child_nodes", "_get_edge", "_get_parent_node"):
+                nodes = forest(shape)
+                yield {"self": nodes[i]}, {"Node": nodes}, "%s: n%d.%s() on %s" % (c.name, i, meth, shape)
+
+
+def replay(ctx, rec):
+    w = rec.get("witness", {})
+    print(w.get("state"), "->", w.get("outcome"), w.get("failed_clauses"))
+    target = w.get("function")
+    c = [x for x in CONTRACTS if x.target == target]
+    if not c:
+        return True
+    for kw, uni, desc in states(c[0]):
+        if desc == w.get("state"):
+            failed, outcome = dreplay.native_check(c[0], kw, universe=uni)
+            print("replayed natively:", outcome, "failed clauses:", failed)
+            return not failed
+    return True
